@@ -60,6 +60,9 @@ type mon struct {
 	escrowAddr   string
 	panicExcused bool
 	stuckSampled bool
+	phantomNonce map[string]uint64 // claims sent under chain references the bridge does not serve
+	sweepShapes  []string
+	sweepsDone   int
 
 	last  *obs
 	ethH  uint64
@@ -112,6 +115,9 @@ func run(cs fw.Case, tier string, rec *fw.Recorder) {
 	m.track(chain.ModuleAddr("paloma").String())
 	m.track(chain.GovAuthority())
 	m.last = m.observe()
+	m.phantomNonce = map[string]uint64{}
+	// one authorisation sweep per history (authz.go), half-way; two out of three on a chain without a contract
+	m.sweepShapes = []string{[]string{"none-registered", "only-other-chains", "registered"}[r.Intn(3)]}
 
 	if p.GovReal {
 		m.opConfigReal()
@@ -124,6 +130,11 @@ func run(cs fw.Case, tier string, rec *fw.Recorder) {
 		}
 		if m.step == p.Steps/6 && m.L.cfg.bits() != "GFC" {
 			m.completeConfig() // most of a history runs with a usable sale path; churn takes it apart again
+			continue
+		}
+		if m.step >= p.Steps/2 && m.sweepsDone < len(m.sweepShapes) {
+			m.opAuthzSweep(m.sweepShapes[m.sweepsDone])
+			m.sweepsDone++
 			continue
 		}
 		m.randomOp()
@@ -903,7 +914,13 @@ func (m *mon) completeConfig() {
 		}
 		m.L.cfg.Funders, m.L.cfg.FundersSet = list, true
 	}
-	if len(m.L.cfg.Contracts) < len(m.w.Chains) {
+	missing := false
+	for _, ch := range m.w.Chains {
+		if _, has := m.L.cfg.Contracts[ch]; !has {
+			missing = true
+		}
+	}
+	if missing {
 		cs := map[string]string{}
 		for i, ch := range m.w.Chains {
 			cs[ch] = m.contracts[i%len(m.contracts)]
